@@ -192,3 +192,46 @@ def is_item(term, base_pred, key):
 def member_of(term, base_pred, key):
     """term denotes base[key] or base.get(key[, None])."""
     return is_item(term, base_pred, key) or is_get(term, base_pred, key)
+
+
+def subterms(t):
+    """All sub-terms of a term (proper terms only, not argument tuples)."""
+    yield t
+    k = t[0]
+    if k in ("attr", "elem", "with", "star"):
+        for x in subterms(t[1]):
+            yield x
+    elif k == "unpack":
+        for x in subterms(t[1]):
+            yield x
+    elif k == "item":
+        for x in subterms(t[1]):
+            yield x
+        for x in subterms(t[2]):
+            yield x
+    elif k == "call":
+        for x in subterms(t[1]):
+            yield x
+        for a in t[2]:
+            for x in subterms(a):
+                yield x
+        for (_n, a) in t[3]:
+            for x in subterms(a):
+                yield x
+    elif k in ("or", "and", "tuple"):
+        for a in t[1]:
+            for x in subterms(a):
+                yield x
+    elif k == "phi":
+        for a in t[1]:
+            for x in subterms(a):
+                yield x
+    elif k == "aug":
+        for x in subterms(t[2]):
+            yield x
+        for x in subterms(t[3]):
+            yield x
+
+
+def contains(t, pred):
+    return any(pred(x) for x in subterms(t))
